@@ -203,10 +203,43 @@ class Rec(object):
 
 
 class Seq(object):
-    """A tuple-like input whose items are bit vectors."""
+    """A tuple- or list-like value whose items are abstract values."""
 
     def __init__(self, items):
         self.items = list(items)
+
+
+class PyDict(object):
+    """A dict with concrete (string / int) keys and abstract values."""
+
+    def __init__(self, items=None):
+        self.items = dict(items or {})
+
+
+def lift(v):
+    """A folded Python value as an abstract value: ints become constant bit
+    vectors, tuples / lists sequences, dicts PyDicts; the rest stays."""
+    if isinstance(v, bool):
+        return v
+    if isinstance(v, int):
+        return BV.const(v)
+    if isinstance(v, (tuple, list)):
+        return Seq([lift(x) for x in v])
+    if isinstance(v, dict) and all(isinstance(k, (str, int))
+                                   for k in v):
+        return PyDict({k: lift(x) for k, x in v.items()})
+    return v
+
+
+def concrete_key(v):
+    """the Python key an abstract value denotes, or None"""
+    if isinstance(v, bool):
+        return int(v)
+    if isinstance(v, BV):
+        return v.const_value()
+    if isinstance(v, (str, int)):
+        return v
+    return None
 
 
 class BitInterp(object):
@@ -251,9 +284,7 @@ class BitInterp(object):
                 v = self.F.eval(e, Env(self.fi.module))
             except (AnalysisError, FoldRaise):
                 raise self.err('unknown name %s' % e.id, e)
-            if isinstance(v, int) and not isinstance(v, bool):
-                return BV.const(v)
-            return v
+            return lift(v)
         if isinstance(e, ast.Attribute):
             # a constant of the codec's own class: cls.X / self.X / Class.X
             if isinstance(e.value, ast.Name) and env.get(e.value.id) in (
@@ -269,8 +300,22 @@ class BitInterp(object):
                         v = self.F.class_attr(own, e.attr, e, self.fi.module)
                     except (AnalysisError, FoldRaise):
                         v = None
-                    if isinstance(v, int) and not isinstance(v, bool):
-                        return BV.const(v)
+                    if v is not None and not isinstance(v, (Opaque, FuncVal,
+                                                            ClassVal)):
+                        lv = lift(v)
+                        if isinstance(lv, (BV, Seq, PyDict, str, bool)):
+                            return lv
+            # a constant of a class named in the module (Position._AXIS_BITS)
+            if isinstance(e.value, ast.Name) and e.value.id not in env:
+                try:
+                    v = self.F.eval(e, self.fenv())
+                except (AnalysisError, FoldRaise):
+                    v = None
+                if v is not None and not isinstance(v, (Opaque, FuncVal,
+                                                        ClassVal)):
+                    lv = lift(v)
+                    if isinstance(lv, (BV, Seq, PyDict, str, bool)):
+                        return lv
             base = self.ev(e.value, env)
             if isinstance(base, Rec):
                 if e.attr not in base.attrs:
@@ -312,21 +357,51 @@ class BitInterp(object):
         if isinstance(e, (ast.Tuple, ast.List)):
             return Seq([self.ev(x, env) for x in e.elts])
         if isinstance(e, (ast.ListComp, ast.GeneratorExp)) and \
-                len(e.generators) == 1 and not e.generators[0].ifs and \
-                isinstance(e.generators[0].target, ast.Name) and \
-                isinstance(e.generators[0].iter, (ast.Tuple, ast.List)):
-            # a comprehension over a literal sequence: that many evaluations
+                len(e.generators) == 1 and not e.generators[0].ifs:
+            # a comprehension over a sequence of known length: that many
+            # evaluations
             g = e.generators[0]
+            src = self.ev(g.iter, env)
+            if not isinstance(src, Seq):
+                raise self.err('comprehension over a value of unknown '
+                               'length', e)
             items = []
-            for x in g.iter.elts:
+            for x in src.items:
                 inner = dict(env)
-                inner[g.target.id] = self.ev(x, env)
+                self.store(g.target, x, inner)
                 items.append(self.ev(e.elt, inner))
             return Seq(items)
+        if isinstance(e, ast.Dict) and all(k is not None for k in e.keys):
+            out = PyDict()
+            for k, v in zip(e.keys, e.values):
+                kk = concrete_key(self.ev(k, env))
+                if kk is None:
+                    raise self.err('dict key is not a constant', k)
+                out.items[kk] = self.ev(v, env)
+            return out
         if isinstance(e, ast.Subscript):
             base = self.ev(e.value, env)
-            if isinstance(base, Seq) and isinstance(e.slice, ast.Constant):
-                return base.items[e.slice.value]
+            if isinstance(e.slice, ast.Slice):
+                raise self.err('slices are not interpreted', e)
+            try:
+                idx = self.ev(e.slice, env)
+            except AnalysisError:
+                idx = None
+            if isinstance(idx, tuple) and idx and idx[0] == 'cond':
+                idx = None
+            k = concrete_key(idx) if idx is not None else None
+            if k is None and isinstance(e.slice, (ast.Call, ast.Compare,
+                                                  ast.BoolOp, ast.UnaryOp)):
+                c = self.cond(e.slice, env)
+                if isinstance(c, bool):
+                    k = int(c)
+            if isinstance(base, Seq) and isinstance(k, int) and \
+                    -len(base.items) <= k < len(base.items):
+                return base.items[k]
+            if isinstance(base, PyDict) and k in base.items:
+                return base.items[k]
+            if isinstance(base, (str,)) and isinstance(k, int):
+                return base[k]
         raise self.err('unsupported expression %s' % type(e).__name__, e)
 
     def binop(self, op, a, b, node):
@@ -414,14 +489,28 @@ class BitInterp(object):
         if isinstance(t, ast.Compare) and len(t.ops) == 1:
             a = self.ev(t.left, env)
             b = self.ev(t.comparators[0], env)
+            if isinstance(a, BV) and isinstance(b, BV) and a.is_const() \
+                    and b.is_const():
+                import operator as _o
+                f = {ast.Lt: _o.lt, ast.LtE: _o.le, ast.Gt: _o.gt,
+                     ast.GtE: _o.ge, ast.Eq: _o.eq, ast.NotEq: _o.ne}.get(
+                         type(t.ops[0]))
+                if f is not None:
+                    return bool(f(a.const_value(), b.const_value()))
             if isinstance(a, BV) and isinstance(b, BV) and b.is_const():
                 c = b.const_value()
-                if isinstance(t.ops[0], (ast.GtE, ast.Lt)) and c > 0 and \
+                op0 = t.ops[0]
+                if isinstance(op0, (ast.Gt, ast.LtE)) and c >= 0 and \
+                        (c + 1) & c == 0:
+                    # v > 2**k - 1  is  v >= 2**k ;  v <= 2**k - 1  is  v < 2**k
+                    c += 1
+                    op0 = ast.GtE() if isinstance(op0, ast.Gt) else ast.Lt()
+                if isinstance(op0, (ast.GtE, ast.Lt)) and c > 0 and \
                         c & (c - 1) == 0:
                     k = c.bit_length() - 1
                     # v >= 2**k  <=>  bit k, provided v < 2**(k+1) and v >= 0
                     d = a.bit(k) if a.zero_from(k + 1) else TOP
-                    return ('cond', d, isinstance(t.ops[0], ast.GtE))
+                    return ('cond', d, isinstance(op0, ast.GtE))
                 if isinstance(t.ops[0], (ast.NotEq, ast.Eq)) and c == 0:
                     nz = [x for x in a.bits + [a.hi] if x != 0]
                     d = nz[0] if len(nz) == 1 else TOP
@@ -430,6 +519,8 @@ class BitInterp(object):
         v = self.ev(t, env)
         if isinstance(v, bool):
             return v
+        if isinstance(v, BV) and v.is_const():
+            return v.const_value() != 0
         if isinstance(v, BV):
             # truth of `v & single_bit`
             nz = [x for x in v.bits + [v.hi] if x != 0]
@@ -441,10 +532,256 @@ class BitInterp(object):
             return True
         raise self.err('unsupported condition', t)
 
+    REDUCE_OPS = {'or_': ast.BitOr, 'and_': ast.BitAnd, 'add': ast.Add,
+                  'xor': ast.BitXor, '__or__': ast.BitOr}
+
+    def _ext_name(self, f):
+        """dotted external name of a callee expression (functools.reduce,
+        operator.or_), or None"""
+        try:
+            ent = self.F.db.resolve_dotted(self.fi.module, f)
+        except AnalysisError:
+            return None
+        from .srcdb import External
+        return ent.dotted if isinstance(ent, External) else None
+
+    def _own_function(self, f, env):
+        """FuncInfo of a helper of the codec's own class / module the callee
+        expression names (Position._layout, cls._signed, _helper), with the
+        receiver value to bind (or None)"""
+        db = self.F.db
+        if isinstance(f, ast.Name) and f.id not in env:
+            try:
+                ent = db.resolve_dotted(self.fi.module, f)
+            except AnalysisError:
+                ent = None
+            from .srcdb import FuncInfo
+            if isinstance(ent, FuncInfo):
+                return ent, None
+            return None
+        if isinstance(f, ast.Attribute) and isinstance(f.value, ast.Name):
+            ci = None
+            recv = env.get(f.value.id)
+            if recv in (None, ('param', f.value.id)):
+                if self.fi.cls is not None and self.fi.params and \
+                        f.value.id == self.fi.params[0] and \
+                        self.fi.kind in ('class', 'instance'):
+                    ci = self.fi.cls
+                elif recv is None:
+                    try:
+                        ent = db.deref(db.resolve_dotted(self.fi.module,
+                                                         f.value))
+                    except AnalysisError:
+                        ent = None
+                    from .srcdb import ClassInfo
+                    if isinstance(ent, ClassInfo):
+                        ci = ent
+            if ci is not None:
+                m = db.find_method(ci, f.attr)
+                if m is not None and m.kind in ('static', 'class'):
+                    return m, (ClassVal(ci) if m.kind == 'class' else None)
+        return None
+
+    def run_helper(self, m, recv, argvals, kwvals, node):
+        if getattr(self, '_depth', 0) > 4:
+            raise self.err('helper calls nested too deeply', node)
+        params = list(m.params)
+        inner = {}
+        if m.kind == 'class':
+            inner[params[0]] = ('param', params[0])
+            params = params[1:]
+        if len(argvals) > len(params):
+            raise self.err('too many arguments for %s' % m.name, node)
+        for pn, a in zip(params, argvals):
+            inner[pn] = a
+        for k, v in kwvals.items():
+            if k not in params:
+                raise self.err('unknown keyword %s for %s' % (k, m.name),
+                               node)
+            inner[k] = v
+        missing = [p_ for p_ in params if p_ not in inner]
+        if missing:
+            args = m.node.args
+            defaults = dict(zip([a.arg for a in args.args][::-1],
+                                args.defaults[::-1]))
+            for p_ in missing:
+                if p_ not in defaults:
+                    raise self.err('argument %s of %s not given' % (
+                        p_, m.name), node)
+                inner[p_] = self.ev(defaults[p_], {})
+        is_gen = any(isinstance(x, (ast.Yield, ast.YieldFrom))
+                     for x in ast.walk(m.node))
+        outer_fi, self.fi = self.fi, m
+        outer_y = getattr(self, '_yields', None)
+        self._yields = [] if is_gen else None
+        self._depth = getattr(self, '_depth', 0) + 1
+        try:
+            try:
+                self.block(m.body, inner)
+                res = None
+            except _Ret as r:
+                res = r.value
+            if is_gen:
+                return Seq(self._yields)
+            return res
+        finally:
+            self.fi = outer_fi
+            self._yields = outer_y
+            self._depth -= 1
+
+    def codec_text(self, node, env):
+        """the wire type a receiver expression names: its text, or the class
+        a local name is bound to (for type_ in (UnsignedByte, VarInt): ...)"""
+        if isinstance(node, ast.Name) and isinstance(env.get(node.id),
+                                                     ClassVal):
+            return env[node.id].ci.name
+        return ast.unparse(node)
+
     def call(self, e, env):
         f = e.func
+        if isinstance(f, ast.Attribute) and f.attr.startswith('protocol_'):
+            c = self.cond(e, env)
+            if isinstance(c, bool):
+                return c
         if isinstance(f, ast.Name) and f.id in ('int',) and len(e.args) == 1:
             return self.ev(e.args[0], env)
+        if isinstance(f, ast.Name) and f.id in ('tuple', 'list') and \
+                f.id not in env and len(e.args) <= 1 and not e.keywords:
+            if not e.args:
+                return Seq([])
+            v = self.ev(e.args[0], env)
+            if isinstance(v, Seq):
+                return Seq(v.items)
+            if isinstance(v, PyDict):
+                return Seq(list(v.items))
+            raise self.err('%s() of a value of unknown length' % f.id, e)
+        if isinstance(f, ast.Name) and f.id == 'dict' and f.id not in env \
+                and not e.args and all(k.arg for k in e.keywords):
+            return PyDict({k.arg: self.ev(k.value, env) for k in e.keywords})
+        if isinstance(f, ast.Name) and f.id == 'zip' and f.id not in env \
+                and e.args and not e.keywords:
+            seqs = [self.ev(a, env) for a in e.args]
+            if not all(isinstance(q, Seq) for q in seqs):
+                raise self.err('zip() of a value of unknown length', e)
+            return Seq([Seq(list(t)) for t in zip(*[q.items for q in seqs])])
+        if isinstance(f, ast.Name) and f.id == 'setattr' and \
+                len(e.args) == 3 and f.id not in env:
+            base = self.ev(e.args[0], env)
+            nm = self.ev(e.args[1], env)
+            if isinstance(base, Rec) and isinstance(nm, str):
+                base.attrs[nm] = self.ev(e.args[2], env)
+                return None
+            raise self.err('setattr with an unknown object / name', e)
+        if isinstance(f, ast.Name) and f.id == 'getattr' and \
+                len(e.args) == 2 and f.id not in env:
+            base = self.ev(e.args[0], env)
+            nm = self.ev(e.args[1], env)
+            if isinstance(base, Rec) and isinstance(nm, str):
+                if nm not in base.attrs:
+                    raise self.err('record attribute %s read before it is '
+                                   'set' % nm, e)
+                return base.attrs[nm]
+            raise self.err('getattr with an unknown object / name', e)
+        # a function value folded from a table: a lambda, an attrgetter
+        fv = env.get(f.id) if isinstance(f, ast.Name) else None
+        from .fold import LambdaVal, ExtInstance
+        if isinstance(fv, LambdaVal) and not e.keywords and \
+                len(e.args) == len(fv.node.args.args) and \
+                not fv.node.args.vararg and not fv.node.args.kwarg:
+            inner = {a.arg: self.ev(x, env)
+                     for a, x in zip(fv.node.args.args, e.args)}
+            return self.ev(fv.node.body, inner)
+        if isinstance(fv, ExtInstance) and fv.callee == \
+                'operator.attrgetter' and len(fv.args) == 1 and \
+                isinstance(fv.args[0], str) and len(e.args) == 1:
+            base = self.ev(e.args[0], env)
+            if isinstance(base, Rec) and '.' not in fv.args[0]:
+                if fv.args[0] not in base.attrs:
+                    raise self.err('record attribute %s read before it is '
+                                   'set' % fv.args[0], e)
+                return base.attrs[fv.args[0]]
+            raise self.err('attrgetter on an unknown object', e)
+        held = env.get(f.id) if isinstance(f, ast.Name) else (
+            self.ev(f, env) if isinstance(f, ast.Subscript) else None)
+        if isinstance(held, tuple) and held[:1] == ('attr',) and \
+                len(held) == 3 and held[1] in (
+                    ('param', self.fi.params[0])
+                    if self.fi.params else None,) and \
+                self.fi.cls is not None:
+            # a method of the codec's own class held in a local / a table
+            m = self.F.db.find_method(self.fi.cls, held[2])
+            if m is not None and m.kind in ('static', 'class'):
+                return self.run_helper(
+                    m, None, [self.ev(a, env) for a in e.args],
+                    {k.arg: self.ev(k.value, env) for k in e.keywords}, e)
+        if isinstance(f, ast.Name) and f.id == 'reversed' and \
+                len(e.args) == 1 and f.id not in env:
+            v = self.ev(e.args[0], env)
+            if isinstance(v, Seq):
+                return Seq(v.items[::-1])
+            raise self.err('reversed() of a value of unknown length', e)
+        if isinstance(f, ast.Name) and f.id == 'len' and len(e.args) == 1:
+            v = self.ev(e.args[0], env)
+            if isinstance(v, (Seq, PyDict)):
+                return BV.const(len(v.items))
+        if isinstance(f, ast.Name) and f.id == 'range' and e.args and \
+                not e.keywords:
+            vals = [concrete_key(self.ev(a, env)) for a in e.args]
+            if all(isinstance(v, int) for v in vals):
+                r = range(*vals)
+                if len(r) <= 256:
+                    return Seq([BV.const(i) for i in r])
+        if isinstance(f, ast.Attribute) and f.attr == 'append' and \
+                len(e.args) == 1 and isinstance(f.value, ast.Name) and \
+                isinstance(env.get(f.value.id), Seq):
+            env[f.value.id].items.append(self.ev(e.args[0], env))
+            return None
+        if isinstance(f, ast.Attribute) and f.attr in ('items', 'keys',
+                                                       'values') and \
+                not e.args and isinstance(f.value, ast.Name) and \
+                isinstance(env.get(f.value.id), PyDict):
+            d = env[f.value.id].items
+            if f.attr == 'keys':
+                return Seq(list(d))
+            if f.attr == 'values':
+                return Seq(list(d.values()))
+            return Seq([Seq([k, v]) for k, v in d.items()])
+        xn = self._ext_name(f) if isinstance(f, (ast.Name, ast.Attribute)) \
+            else None
+        if xn in ('functools.reduce', 'reduce') or (
+                isinstance(f, ast.Name) and f.id == 'reduce'
+                and f.id not in env and xn is None and False):
+            if len(e.args) not in (2, 3):
+                raise self.err('reduce() with %d arguments' % len(e.args), e)
+            opn = self._ext_name(e.args[0])
+            opk = (opn or '').split('.')[-1]
+            if not (opn or '').startswith('operator.') or \
+                    opk not in self.REDUCE_OPS:
+                raise self.err('reduce() with an operator that is not '
+                               'interpreted', e)
+            seq = self.ev(e.args[1], env)
+            if not isinstance(seq, Seq):
+                raise self.err('reduce() over a value of unknown length', e)
+            items = list(seq.items)
+            if len(e.args) == 3:
+                items.insert(0, self.ev(e.args[2], env))
+            if not items:
+                raise self.err('reduce() of an empty sequence', e)
+            acc = items[0]
+            for x in items[1:]:
+                acc = self.binop(self.REDUCE_OPS[opk](), acc, x, e)
+            return acc
+        own = None
+        if not (isinstance(f, ast.Attribute) and f.attr in (
+                'read', 'send', 'read_with_context', 'send_with_context')):
+            own = self._own_function(f, env)
+        if own is not None and own[0] is not self.fi:
+            m, recv = own
+            if any(k.arg is None for k in e.keywords):
+                raise self.err('**kwargs to a helper', e)
+            return self.run_helper(
+                m, recv, [self.ev(a, env) for a in e.args],
+                {k.arg: self.ev(k.value, env) for k in e.keywords}, e)
         if isinstance(f, ast.Name) and f.id == 'pow' and len(e.args) == 2:
             a, b = self.ev(e.args[0], env), self.ev(e.args[1], env)
             if isinstance(a, BV) and isinstance(b, BV) and a.is_const() and \
@@ -452,7 +789,7 @@ class BitInterp(object):
                 return BV.const(a.const_value() ** b.const_value())
         if isinstance(f, ast.Attribute) and f.attr in (
                 'read', 'read_with_context'):
-            codec = ast.unparse(f.value)
+            codec = self.codec_text(f.value, env)
             if not self.inputs:
                 # more reads than the packer wrote words: reported by the
                 # caller through the carrier comparison
@@ -463,7 +800,7 @@ class BitInterp(object):
             return v
         if isinstance(f, ast.Attribute) and f.attr in (
                 'send', 'send_with_context'):
-            codec = ast.unparse(f.value)
+            codec = self.codec_text(f.value, env)
             v = self.ev(e.args[0], env)
             if not isinstance(v, BV):
                 raise self.err('packer sends a non-integer', e)
@@ -501,7 +838,16 @@ class BitInterp(object):
             return res
         # constructor of the result: cls(...), Position(x=..), Name(...)
         args = [self.ev(a, env) for a in e.args]
-        kws = {k.arg: self.ev(k.value, env) for k in e.keywords}
+        kws = {}
+        for k in e.keywords:
+            v = self.ev(k.value, env)
+            if k.arg is None:
+                if not isinstance(v, PyDict):
+                    raise self.err('** of a value that is not a known dict',
+                                   e)
+                kws.update(v.items)
+            else:
+                kws[k.arg] = v
         if isinstance(f, ast.Name):
             return Rec(dict(kws, **{'#%d' % i: a for i, a in
                                     enumerate(args)}), name=f.id)
@@ -525,6 +871,12 @@ class BitInterp(object):
     def stmt(self, st, env):
         if isinstance(st, ast.Expr):
             if isinstance(st.value, ast.Constant):
+                return
+            if isinstance(st.value, ast.Yield):
+                if getattr(self, '_yields', None) is None:
+                    raise self.err('yield outside a followed helper', st)
+                self._yields.append(self.ev(st.value.value, env)
+                                    if st.value.value is not None else None)
                 return
             self.ev(st.value, env)
             return
@@ -556,12 +908,32 @@ class BitInterp(object):
             raise _Ret(self.ev(st.value, env) if st.value else None)
         if isinstance(st, ast.Pass):
             return
+        if isinstance(st, ast.For) and not st.orelse:
+            src = self.ev(st.iter, env)
+            if isinstance(src, PyDict):
+                src = Seq(list(src.items))
+            if not isinstance(src, Seq) or len(src.items) > 256:
+                raise self.err('loop over a value of unknown length', st)
+            for x in list(src.items):
+                self.store(st.target, x, env)
+                for b in st.body:
+                    if isinstance(b, (ast.Break, ast.Continue)):
+                        raise self.err('break / continue in a layout loop', b)
+                self.block(st.body, env)
+            return
         raise self.err('unsupported statement %s' % type(st).__name__, st)
 
     def copy_env(self, env):
         out = {}
         for k, v in env.items():
-            out[k] = Rec(v.attrs, v.name) if isinstance(v, Rec) else v
+            if isinstance(v, Rec):
+                out[k] = Rec(v.attrs, v.name)
+            elif isinstance(v, Seq):
+                out[k] = Seq(v.items)
+            elif isinstance(v, PyDict):
+                out[k] = PyDict(v.items)
+            else:
+                out[k] = v
         return out
 
     def merge_env(self, env, d, e1, e2, node):
@@ -586,7 +958,17 @@ class BitInterp(object):
     def store(self, t, v, env):
         if isinstance(t, ast.Name):
             env[t.id] = v
-        elif isinstance(t, ast.Tuple):
+        elif isinstance(t, ast.Subscript):
+            base = self.ev(t.value, env)
+            k = concrete_key(self.ev(t.slice, env))
+            if isinstance(base, PyDict) and k is not None:
+                base.items[k] = v
+            elif isinstance(base, Seq) and isinstance(k, int) and \
+                    -len(base.items) <= k < len(base.items):
+                base.items[k] = v
+            else:
+                raise self.err('item store on an unknown container / key', t)
+        elif isinstance(t, (ast.Tuple, ast.List)):
             if not isinstance(v, Seq) or len(v.items) != len(t.elts):
                 raise self.err('cannot unpack', t)
             for e, x in zip(t.elts, v.items):
